@@ -631,6 +631,26 @@ impl Prop for C17 {
                         }
                         let ls = u32::from_le_bytes([raw[o], raw[o + 1], raw[o + 2], raw[o + 3]]) as usize;
                         let li = u32::from_le_bytes([raw[o + 4], raw[o + 5], raw[o + 6], raw[o + 7]]) as usize;
+                        if rng.chance(1, 4) && ls >= 24 && o + 32 <= raw.len() {
+                            // the fixed-size site fields: CHROM, POS, rlen, n_info, n_allele,
+                            // n_sample (24 bits), n_fmt - a count that disagrees with the header's
+                            // sample columns or with the data that follows
+                            let f = o + 8;
+                            match rng.below(7) {
+                                0 => raw[f..f + 4].copy_from_slice(&(*rng.pick(&[-1i32, 1, 7, i32::MAX])).to_le_bytes()),
+                                1 => raw[f + 4..f + 8].copy_from_slice(&(*rng.pick(&[-1i32, -2, i32::MAX, i32::MIN])).to_le_bytes()),
+                                2 => raw[f + 8..f + 12].copy_from_slice(&(*rng.pick(&[-1i32, 0, i32::MAX])).to_le_bytes()),
+                                3 => raw[f + 16..f + 18].copy_from_slice(&(*rng.pick(&[1u16, 2, 0xffff])).to_le_bytes()),
+                                4 => raw[f + 18..f + 20].copy_from_slice(&(*rng.pick(&[0u16, 1, 3, 0xffff])).to_le_bytes()),
+                                5 => {
+                                    let cur = u32::from_le_bytes([raw[f + 20], raw[f + 21], raw[f + 22], 0]);
+                                    let v = *rng.pick(&[0u32, 1, cur.saturating_sub(1), cur + 1, 0xff_ffff]);
+                                    raw[f + 20..f + 23].copy_from_slice(&v.to_le_bytes()[..3]);
+                                }
+                                _ => raw[f + 23] = *rng.pick(&[0u8, 1, 2, 3, 0xff]),
+                            }
+                            continue;
+                        }
                         let (a, b) = if rng.chance(3, 4) { (o + 8 + ls, o + 8 + ls + li) } else { (o + 8, o + 8 + ls) };
                         if a >= b || b > raw.len() {
                             continue;
